@@ -34,7 +34,7 @@ Print Assumptions C05_write_only_last.
    named lifetime (`fn f(&self) -> &T`, `fn f(x: &T) -> &T`) makes validation refuse the method, whatever else the
    signature contains (Lifetimes/Elision.v models core/src/hir/elision.rs, Lifetimes/Model.v the validation) *)
 From Coq Require Import Arith.
-From DV Require Import Lifetimes.Model Lifetimes.Elision Lifetimes.ElisionProofs.
+From DV Require Import gen.Tables Lifetimes.Model Lifetimes.Elision Lifetimes.ElisionProofs.
 Theorem C05_elided_return_rejected : forall g i m k ds,
   (elision_source g = SelfParam (Lt i) \/ elision_source g = OneParam (Lt i)) -> s_n g <= i ->
   ret_elided (s_ret g) = true -> lower_sig g = Some (m, k) -> validate_method ds m = false.
